@@ -621,6 +621,57 @@ def _bind_args(fn, call, skip):
     return m
 
 
+def _structure_procedure(body):
+    """statement list of a function whose returns carry no value -> equivalent list without `return`, or None"""
+
+    def is_bare(r):
+        return isinstance(r, ast.Return) and (r.value is None or (isinstance(r.value, ast.Constant) and r.value.value is None))
+
+    def rec(stmts):
+        out = []
+        for i, st in enumerate(stmts):
+            if is_bare(st):
+                return out  # everything after a return is dead
+            if isinstance(st, ast.Return):
+                return None
+            if isinstance(st, ast.If):
+                b_ends = bool(st.body) and is_bare(st.body[-1])
+                o_ends = bool(st.orelse) and is_bare(st.orelse[-1])
+                rest = stmts[i + 1:]
+                if b_ends and not st.orelse:
+                    b, r = rec(st.body), rec(rest)
+                    if b is None or r is None:
+                        return None
+                    out.append(ast.If(test=st.test, body=b or [ast.Pass()], orelse=r, lineno=st.lineno, col_offset=0))
+                    return out
+                if b_ends or o_ends:
+                    b, o = rec(st.body), rec(st.orelse)
+                    if b is None or o is None:
+                        return None
+                    r = rec(rest)
+                    if r is None:
+                        return None
+                    # the branch that does not return continues with the rest
+                    if b_ends and o_ends:
+                        out.append(ast.If(test=st.test, body=b or [ast.Pass()], orelse=o, lineno=st.lineno, col_offset=0))
+                    elif b_ends:
+                        out.append(ast.If(test=st.test, body=b or [ast.Pass()], orelse=o + r, lineno=st.lineno, col_offset=0))
+                    else:
+                        out.append(ast.If(test=st.test, body=(b + r) or [ast.Pass()], orelse=o, lineno=st.lineno, col_offset=0))
+                    return out
+                if any(isinstance(x, ast.Return) for x in ast.walk(st)):
+                    return None
+                out.append(st)
+            elif any(isinstance(x, ast.Return) for x in ast.walk(st)) and not isinstance(st, (ast.FunctionDef, ast.Lambda)):
+                return None
+            else:
+                out.append(st)
+        return out
+
+    r = rec(list(body))
+    return r if r else None
+
+
 def _n9(tree, new_names):
     helpers = _helper_table(tree, new_names)
     if not helpers:
@@ -695,6 +746,12 @@ def _n9(tree, new_names):
                 if h is fn or not body:
                     i += 1
                     continue
+                if mode == "expr":
+                    # a procedure with early exits (`if c: ...; return` followed by the rest) is first brought into the
+                    # structured form `if c: ... else: <rest>`; bare returns in tail position disappear
+                    sb = _structure_procedure(copy.deepcopy(body))
+                    if sb is not None:
+                        body = sb
                 inner_returns = [x for s in body[:-1] for x in ast.walk(s) if isinstance(x, ast.Return)]
                 last = body[-1]
                 nested_ret_in_last = [x for x in ast.walk(last) if isinstance(x, ast.Return) and x is not last]
